@@ -106,6 +106,8 @@ def gen_plan(seed, tier="quick"):
         "form": r.choice(["bin", "bin", "cbin"]),           # the input recording may be compressed
         "qc_path": r.random() < 0.2,                        # QC files saved to a separate directory
         "rerun": r.random() < 0.15,      # an earlier plain run left its output and QC files in the same directory
+        # ... and that earlier run may have been killed part-way (partial output, half-written QC scratch files)
+        "rerun_killed": ({"rseed": r.randrange(1 << 30)} if r.random() < 0.5 else None),
         "append": r.random() < 0.2, "ns_first": r.randrange(12000, 16000) if (reject and r.random() < 0.7) else r.randrange(1500, 9000), "nproc_first": r.choice([1, 2, 3]),
         "p_switch": r.choice([0.0, 0.0, 0.01, 0.05, 0.2, 0.5, 1.0]),
         "victim": r.choice([None, None, 0, nproc - 1, r.randrange(nproc)]),
@@ -399,7 +401,11 @@ def _run(plan, base):
             od.mkdir()
             out = od / "destriped.bin"
             offset = 0
-            if plan["append"] or plan.get("rerun"):
+            if plan.get("rerun") and not plan["append"] and plan.get("rerun_killed") and tag == "sim":
+                # history: the earlier run died part-way (its own forked process, killed at a seeded write)
+                _killed_first_run(plan, bin1, out, W, base, probe, stats)
+                offset = 0
+            elif plan["append"] or plan.get("rerun"):
                 r1 = _sim_run(plan, bin1, out, 1 if tag == "ref" else plan["nproc_first"], False, W,
                               None if tag == "ref" else {"seed": plan["sched_seed"] ^ 1, "p_switch": plan["p_switch"]})
                 if r1["err"]:
@@ -496,6 +502,34 @@ def _run(plan, base):
     return {"violation": viol, "stats": stats, "digest": digest(log), "plan": xplan,
             "sample": {"plan": {k: v for k, v in plan.items() if k not in ("trace",)},
                        "schedule_head": next((e[4][:12] for e in reversed(log) if e[0] == "sim"), None)}}
+
+
+def _killed_first_run(plan, bin1, out, W, base, probe, stats):
+    """An earlier destripe run into the same place, in its own process, killed at a seeded write event."""
+    def do_step(step, root):
+        SCHED.reset(rng=None)
+        _destripe_call(plan, bin1, out, plan["nproc_first"], False, W)
+        return {"done": True}
+
+    def clear():
+        import shutil
+        for f in list(Path(out).parent.iterdir()):
+            if f.is_dir():
+                shutil.rmtree(f)
+            else:
+                f.unlink()
+
+    dr = session.run_step(base, do_step, {}, None)       # fault-free pass for the event list (absolute paths: no copy needed)
+    clear()
+    elig = lambda lab: lab.startswith(("tofile:", "open-", "close:"))  # noqa: E731
+    f = session.place_fault(rng_of(plan["rerun_killed"]["rseed"]), dr["events"], elig, kinds=("kill", "kill", "torn"))
+    if f is None:
+        return
+    res = session.run_step(base, do_step, {}, f)
+    stats["steps"] += len(res["events"])
+    if res["fired"]:
+        stats["faults"][res["fired"]["kind"]] = stats["faults"].get(res["fired"]["kind"], 0) + 1
+        probe("earlier_run_killed_part_way_then_rerun")
 
 
 def _check_run(plan, tag, nproc, O, data, offset, first_bytes, nc_out, res, od, nbatches, probe, stats, sigbase):
@@ -637,7 +671,7 @@ def _check_reference(plan, O, out, offset, nc_out, fs, rec, sigbase, W):
 
 
 def shrink_candidates(plan):
-    for key, val in (("append", False), ("delay", None), ("io_mode", False), ("out_dtype", "int16"), ("mixed_gains", False), ("rerun", False), ("form", "bin"), ("qc_path", False), ("saturate", []), ("wrot", "none"), ("reject", False), ("ns2add", 0),
+    for key, val in (("append", False), ("delay", None), ("io_mode", False), ("out_dtype", "int16"), ("mixed_gains", False), ("rerun_killed", None), ("rerun", False), ("form", "bin"), ("qc_path", False), ("saturate", []), ("wrot", "none"), ("reject", False), ("ns2add", 0),
                      ("drop_sync", False), ("default_k", False), ("order", None), ("victim", None), ("p_switch", 0.0),
                      ("k_filter", False)):
         if plan.get(key) != val:
